@@ -52,7 +52,10 @@ PickD1 == /\ Family = "d1" /\ done = "no" /\ (\E t \in NumD1_(0) \cup LogD1_(0) 
 \* family "zero": a zero factor around a depth-2 tree that contains a division (the absorbing
 \* rule 0 * e -> 0 must not erase a zero or variable denominator hidden anywhere inside e)
 DivBases == {B("div", a, b) : a \in NumLeaves, b \in NumLeaves}
-ZeroWrap(t) == {B("mul", Num(0, 1), t), B("mul", t, Num(0, 1)), B("mul", Num(0, -1), t), B("mul", B("sub", V("x"), V("x")), t)}
+ZeroWrap(t) == {B("mul", Num(0, 1), t), B("mul", t, Num(0, 1)), B("mul", Num(0, -1), t), B("mul", B("sub", V("x"), V("x")), t),
+                \* a deciding logic constant next to the division: false in an and, true in an or
+                N2("and", Num(0, 1), t), N2("and", t, Num(0, 1)), N3("and", V("p"), Num(0, 1), t), N2("or", Num(1, 1), t), N2("or", t, Num(2, 1)),
+                B("b_and", Num(0, 1), t), B("b_or", t, Num(1, 1))}
 \* family "negsum": the spellings of a negated sum (unary minus, subtraction from a leaf, scale -1, division by -1)
 SumBases == {B(o, a, b) : o \in {"add", "sub"}, a \in NumLeaves, b \in NumLeaves}
 NegWrap(t) == {U("neg", t), B("mul", Num(-1, 1), t), B("mul", t, Num(-2, 1)), B("div", t, Num(-1, 1)), U("neg", U("neg", t))}
